@@ -3,6 +3,7 @@ package verif
 import (
 	"fmt"
 	"os"
+	"path/filepath"
 	"strings"
 
 	"github.com/bokysan/socketace/v2/internal/client/listener"
@@ -54,6 +55,7 @@ type WorldCfg struct {
 	Carrier           string
 	ServerCert        string // "", good, wronghost, untrusted, expired, short
 	RequireClientCert bool
+	ServerCertFiles   bool   // the server gets certificate and key as files (read on use) instead of inline PEM
 	ServerCA          string // CA the server trusts for client certificates: "", good, foreign
 	ClientCA          string // CA the client trusts: "", good, foreign
 	ClientCert        string // "", good, foreign, impostor (CA of the same name as the good one, other key)
@@ -236,8 +238,14 @@ func serverEntry(cfg *WorldCfg, carrier string, port int) (yamlText, upstreamURL
 		fmt.Fprintf(&b, "  channels: %s\n", yamlList(cfg.ServerAllow))
 	}
 	if kp := certFor(cfg.ServerCert); kp != nil {
-		fmt.Fprintf(&b, "  certificate: |\n%s\n", indent(kp.CertPEM, 4))
-		fmt.Fprintf(&b, "  privateKey: |\n%s\n", indent(kp.KeyPEM, 4))
+		if cfg.ServerCertFiles {
+			// the server reads certificate and key from disk (each read takes simulated time)
+			fmt.Fprintf(&b, "  certificateFile: %q\n", pkiFile(cfg.ServerCert+".crt", kp.CertPEM))
+			fmt.Fprintf(&b, "  privateKeyFile: %q\n", pkiFile(cfg.ServerCert+".key", kp.KeyPEM))
+		} else {
+			fmt.Fprintf(&b, "  certificate: |\n%s\n", indent(kp.CertPEM, 4))
+			fmt.Fprintf(&b, "  privateKey: |\n%s\n", indent(kp.KeyPEM, 4))
+		}
 	}
 	if ca := caFor(cfg.ServerCA); ca != nil {
 		fmt.Fprintf(&b, "  caCertificate: |\n%s\n", indent(ca.CertPEM, 4))
@@ -509,4 +517,26 @@ func (w *World) DialApp(l LsnCfg) (*simrt.Conn, error) {
 		return nil, err
 	}
 	return c.(*simrt.Conn), nil
+}
+
+var pkiDir string
+var pkiFiles = map[string]string{}
+
+// pkiFile writes a fixture to a per-process directory next to the worker binary (inside the scratch
+// build, removed with it) and returns its path.
+func pkiFile(name, content string) string {
+	if p, ok := pkiFiles[name]; ok {
+		return p
+	}
+	if pkiDir == "" {
+		wd, _ := os.Getwd()
+		pkiDir = filepath.Join(wd, fmt.Sprintf("pki-%d", os.Getpid()))
+		os.MkdirAll(pkiDir, 0700)
+	}
+	p := filepath.Join(pkiDir, name)
+	if err := os.WriteFile(p, []byte(content), 0600); err != nil {
+		panic(err)
+	}
+	pkiFiles[name] = p
+	return p
 }
